@@ -505,6 +505,7 @@ func accountRun(st *Stats, w *Workload, rep *RunReport, seen map[uint64]bool) {
 	st.Faults["preemptions"] += uint64(o.Preemptions)
 	st.Faults["fairness_guard_switches"] += uint64(o.Starved)
 	st.Faults["lock_deadlocks_detected"] += uint64(o.Deadlocks)
+	st.Faults["library_goroutines_run_as_clients"] += uint64(o.Spawned)
 	if o.First != 0 {
 		st.Faults["start_skew_runs"]++
 	}
@@ -808,6 +809,9 @@ func main() {
 	loadKnown(*known)
 	zzverifrt.Hook = simrt.Yield
 	zzverifrt.Blocked = simrt.BlockedYield
+	zzverifrt.Active = simrt.Active
+	zzverifrt.GoHook = simrt.Spawn
+	simrt.RealSpawned = zzverifrt.RealSpawned
 	progressOpen(*progressFile)
 
 	if pf := os.Getenv("VERIF_PROF"); pf != "" {
